@@ -265,12 +265,23 @@ class Tr:
         return None
 
     def sbind(self, v, st, env):
-        """structured binding declaration: bind lines; enters the names into env"""
+        """structured binding declaration: bind lines; enters the names into env.
+        Base rule:  auto& [k, i] = *it  for an iterator of the index: the node's key and mapped slot."""
+        names, init = list(v["n"]), v["a"]
+        if len(init) == 1 and len(names) == 2 and init[0]["k"] == "op" and init[0]["n"] == "operator*" and "umap" in self.kind_field:
+            b, t, kd = self.E(init[0]["a"][0], st, env)
+            if kd == "mit":
+                x, a1, a2 = self.fresh("pr"), self.fresh("v_" + names[0] + "_"), self.fresh("v_" + names[1] + "_")
+                env[names[0]] = (a1, "key")
+                env[names[1]] = (a2, "nat")
+                return b + ["do %s <- mit_deref %s %s;" % (x, self.fld("umap", st[0]), t), "let '(%s, %s) := %s in" % (a1, a2, x)]
         raise Unsupported("structured binding %s" % show(v)[:200])
 
     def akind(self, t, param=False):
         """abstract kind of a C++ type"""
         t = t.replace("const ", "").strip()
+        while t.endswith(" const"):
+            t = t[:-6].strip()
         r = self.akind_ext(t, param)
         if r is not None:
             return r
@@ -278,6 +289,8 @@ class Tr:
             return "guard"
         if t.endswith("::element &") or t.endswith("::element"):
             return "eref"
+        if (t.startswith("std::pair<std::__detail::_Node_iterator<") or t.startswith("std::pair<iterator,")) and t.endswith(", bool>"):
+            return "emplaced"      # what unordered_map::emplace returns; only .first is given a meaning
         if t.endswith("::element *"):
             return "eptr"          # pointer to an element: None = nullptr, Some i = &m_elements[i] / the node i
         if t.endswith("::value_type &") and "::element>" in t and "__alloc_traits<" in t:
@@ -318,7 +331,7 @@ class Tr:
 
     COQTY = {"nat": "nat", "bool": "bool", "key": "K", "val": "V", "optval": "option V", "allow": "allow", "peek": "bool",
              "liter": "iter", "mit": "option K", "eref": "nat", "unit": "unit", "kvrange": "list (K * V)", "krange": "list K",
-             "fillrange": "list (K * option V)", "outvec": "list (K * option V)", "time": "Z", "dur": "Z", "durms": "Z", "eptr": "option nat"}
+             "fillrange": "list (K * option V)", "outvec": "list (K * option V)", "time": "Z", "dur": "Z", "durms": "Z", "eptr": "option nat", "emplaced": "option K"}
 
     # ---- expressions: returns (list of bind lines, term, kind); may update the state name
     def E(self, c, st, env):
@@ -400,6 +413,11 @@ class Tr:
             if f == "insert_allowed":
                 b, t, _ = self.E(c["a"][0], st, env)
                 return b, "(a_ins %s)" % t, "bool"
+            if f in ("begin", "end") and len(c["a"]) == 1:
+                b, t, kd = self.E(c["a"][0], st, env)
+                if kd == "list":        # std::begin(l) is l.begin()
+                    return b, ("(l_begin %s)" % t) if f == "begin" else "End", "liter"
+                raise Unsupported("std::%s of %s" % (f, kd))
             if f in ("prev", "next"):
                 b, t, kd = self.E(c["a"][0], st, env)
                 if kd != "liter" or len(c["a"]) != 1:
@@ -658,7 +676,7 @@ class Tr:
                         continue
                     raise Unsupported("default initialisation of %s %s" % (kd, v["n"]))
                 b, t, k2 = self.E(v["a"][0], st, env)
-                if k2 == "emplaced":
+                if k2 == "emplaced" and kd != "emplaced":
                     k2 = "mit"
                 if k2 != kd:
                     raise Unsupported("initialiser of kind %s for %s %s" % (k2, kd, v["n"]))
@@ -871,6 +889,14 @@ class Tr:
                 env[tgt["n"]] = (x, "nat")
                 return out
             raise Unsupported("%s on %s" % (c["n"], show(tgt)))
+        if k == "op" and c["n"] in ("operator++", "operator--") and len(c["a"]) == 1 and c["a"][0]["k"] == "ref" \
+                and c["a"][0]["n"] in env and env[c["a"][0]["n"]][1] == "liter" and "list" in self.kind_field:
+            n = c["a"][0]["n"]
+            x, y = self.fresh("it"), self.fresh("v_" + n + "_")
+            f = "l_next" if c["n"] == "operator++" else "l_prev"
+            out = ["do %s <- %s %s %s;" % (x, f, self.fld("list", st[0]), env[n][0]), "let %s := %s in" % (y, x)]
+            env[n] = (y, "liter")
+            return out
         if k == "op" and c["n"] in ("operator++", "operator--") and len(c["a"]) == 1:
             tgt = c["a"][0]
             if tgt["k"] == "field" and self.f_by_cpp[tgt["n"]][1] == "liter":
@@ -961,6 +987,8 @@ class Tr:
         k = c["k"]
         if k == "call" and c["n"] == "iota" and len(c["a"]) == 3:
             b, e, z = c["a"]
+            # std::begin(l) / std::end(l) are l.begin() / l.end()
+            b, e = [dict(x, k="mcall") if (x["k"] == "call" and x["n"] in ("begin", "end") and len(x["a"]) == 1) else x for x in (b, e)]
             if b["k"] == "mcall" and b["n"] == "begin" and e["k"] == "mcall" and e["n"] == "end" and \
                     b["a"][0]["k"] == "field" and e["a"][0] == b["a"][0] and z["k"] == "int" and str(z["n"]) == "0":
                 coq, kind = self.f_by_cpp[b["a"][0]["n"]]
@@ -971,6 +999,8 @@ class Tr:
         if k == "op" and c["n"] == "operator=" and c["a"][0]["k"] == "field":
             coq, kind = self.f_by_cpp[c["a"][0]["n"]]
             r = c["a"][1]
+            if r["k"] == "call" and r["n"] == "begin" and len(r["a"]) == 1:
+                r = dict(r, k="mcall")
             if kind == "liter" and r["k"] == "mcall" and r["n"] == "begin" and r["a"][0]["k"] == "field":
                 lc, lk = self.f_by_cpp[r["a"][0]["n"]]
                 if lk == "list" and F.get(lc) is not None:
